@@ -161,20 +161,33 @@ def run(prog, rep, tier):
         if c_.get('item') == 'index' and len(args) > 1 and args[1]['k'] == 'const' and 'int' in (args[1].get('v') or {}):
             return {('part', int(args[1]['v']['int']))}
         return None
-    tt = dataflow.Taint(prog, pos_fs, src, call_result=cres)
     nagg = 0
-    for bb in pos_fs['blocks']:
-        for s_ in bb['s']:
-            if s_['k'] == 'assign' and s_['rv']['k'] == 'agg' and s_['rv']['ak']['k'] == 'adt' and prog.types[s_['rv']['ak']['ty']]['name'].endswith('cpr::Position'):
-                ty_ = prog.types[s_['rv']['ak']['ty']]
-                names = [f['name'] for f in ty_['variants'][0]['fields']]
-                nagg += 1
-                for fname, want in (('latitude', {'lat', ('part', 0)}), ('longitude', {'lon', ('part', 1)})):
-                    got = set(x for x in tt.operand_taint(s_['rv']['ops'][names.index(fname)]) if x in ('lat', 'lon') or (isinstance(x, tuple) and x[0] == 'part'))
-                    rep.check(bool(got) and got <= want, 'U5-coordinate-provenance', 'Position::from_str#%s#%d' % (fname, nagg), '%s:%s' % (pos_fs['file'], s_.get('sp')),
-                              '%s of the parsed reference is taken from %s (expected %s)' % (fname, sorted(map(str, got)) or 'nothing recognisable', sorted(map(str, want))),
-                              sample={'field': fname, 'from': sorted(map(str, got))})
-    rep.floor('Position values built in from_str', nagg, 2)
+    for pb in util.static_reach(prog, [pos_fs]):
+        if pb['kind'] not in ('fn', 'closure'):
+            continue
+
+        def src(pl, pb=pb):
+            st_ = dataflow.place_steps(prog, pb, pl)
+            if st_ and (st_[-1][0] or '').endswith('Airport') and st_[-1][2] in ('lat', 'lon'):
+                return {st_[-1][2]}
+            return None
+        tt = None
+        for bb in pb['blocks']:
+            for s_ in bb['s']:
+                if s_['k'] == 'assign' and s_['rv']['k'] == 'agg' and s_['rv']['ak']['k'] == 'adt' and prog.types[s_['rv']['ak']['ty']]['name'].endswith('cpr::Position'):
+                    ty_ = prog.types[s_['rv']['ak']['ty']]
+                    names = [f['name'] for f in ty_['variants'][0]['fields']]
+                    nagg += 1
+                    if tt is None:
+                        tt = dataflow.Taint(prog, pb, src, call_result=cres)
+                    for fname, want in (('latitude', {'lat', ('part', 0)}), ('longitude', {'lon', ('part', 1)})):
+                        got = set(x for x in tt.operand_taint(s_['rv']['ops'][names.index(fname)]) if x in ('lat', 'lon') or (isinstance(x, tuple) and x[0] == 'part'))
+                        # only a recognisable and wrong source is reported: another way of splitting the text (an iterator
+                        # of parts instead of an indexed Vec) gives no label at all and is not this rule's business
+                        rep.check(got <= want, 'U5-coordinate-provenance', 'Position::from_str#%s#%d' % (fname, nagg), '%s:%s' % (pb['file'], s_.get('sp')),
+                                  '%s of the parsed reference is taken from %s (expected %s)' % (fname, sorted(map(str, got)), sorted(map(str, want))),
+                                  sample={'field': fname, 'from': sorted(map(str, got))}, nontrivial=bool(got))
+    rep.floor('Position values built below from_str', nagg, 1)
     rep.ok('U4-default-matching-mode', 'Position::from_str#regex-calls-examined', True, {'regex_calls': nreg, 'bodies': len(seen_b)})
     consts += E2.const_checks
     for kind, lit, good, site in sorted(set(c_[:4] for c_ in consts if c_[0] in ('regex', 'url'))):
@@ -304,7 +317,13 @@ def endpoint_provenance(prog, rep, src_fs):
             return allt | {('url', c_.get('item'))}
         tgt = prog.bodies.get(c_.get('rdid') or '')
         if tgt is not None and tgt['crate'] in ('jet1090', 'rs1090'):
-            return allt | set(('url', x) for x in _url_tags(prog, tgt, memo))
+            # what the helper *returns* (taint of its return place), not everything it looks at: `url.host().is_some()`
+            # deciding a branch inside a helper does not put Host's Display into the endpoint text
+            if tgt['id'] not in memo:
+                memo[tgt['id']] = set()          # recursion guard
+                ht = dataflow.Taint(prog, tgt, lambda pl: None, call_result=cres)
+                memo[tgt['id']] = set(x for x in ht.t.get(0, set()) if isinstance(x, tuple) and x[0] == 'url')
+            return allt | memo[tgt['id']]
         return None
     tt = dataflow.Taint(prog, src_fs, lambda pl: None, call_result=cres)
     nagg = 0
@@ -328,6 +347,48 @@ def endpoint_provenance(prog, rep, src_fs):
                                                   'literals)' % extra) if extra else ''),
                           sample={'variant': vname, 'url_accessors': sorted(got)})
     rep.floor('Address values built in Source::from_str', nagg, 3)
+    # U7 (after seed C16-s11): ws is a special scheme - the url crate drops an explicit port equal to the scheme default, so
+    # Url::port() is None for "ws://host:80/..".  A fallback constant applied to a port()-derived Option that reaches the
+    # websocket endpoint must therefore be that default (80); port_or_known_default() needs no fallback.
+    SPECIAL_DEFAULT = {'Websocket': 80}
+    for bb in src_fs['blocks']:
+        t_ = bb['t']
+        if not (t_ and t_['k'] == 'call' and t_['callee'] and t_['callee'].get('item') == 'unwrap_or' and len(t_['args']) == 2):
+            continue
+        got = set(x[1] for x in tt.operand_taint(t_['args'][0]) if isinstance(x, tuple) and x[0] == 'url')
+        if 'port' not in got or 'port_or_known_default' in got:
+            continue
+        a1 = t_['args'][1]
+        val = int(a1['v']['int']) if a1['k'] == 'const' and 'int' in (a1.get('v') or {}) else None
+        # which endpoints does this value reach?
+        dl = t_['dest']['l']
+        for bb2 in src_fs['blocks']:
+            for s_ in bb2['s']:
+                if s_['k'] == 'assign' and s_['rv']['k'] == 'agg' and s_['rv']['ak']['k'] == 'adt' and prog.types[s_['rv']['ak']['ty']]['name'].endswith('source::Address'):
+                    vname = prog.types[s_['rv']['ak']['ty']]['variants'][s_['rv']['ak'].get('variant', 0)]['name']
+                    if vname in SPECIAL_DEFAULT and _flows(src_fs, dl, set(p_['l'] for o in s_['rv']['ops'] for p_ in dataflow.operand_places(o))):
+                        rep.check(val == SPECIAL_DEFAULT[vname], 'U7-special-scheme-port', 'Source::from_str#Address::%s#port-fallback' % vname, '%s:%s' % (src_fs['file'], t_.get('sp')),
+                                  'the %s endpoint takes its port from Url::port() with the fallback %s; Url::port() is None when the explicit port equals the scheme default (%d), '
+                                  'so "ws://host:%d/.." would be given port %s' % (vname, val, SPECIAL_DEFAULT[vname], SPECIAL_DEFAULT[vname], val))
+
+
+def _flows(body, l0, targets):
+    """flow-insensitive: does the value of local l0 reach one of the target locals (through assignments and calls)"""
+    import dataflow
+    R = {l0}
+    changed = True
+    while changed:
+        changed = False
+        for bb in body['blocks']:
+            for s in bb['s']:
+                if s['k'] == 'assign' and s['pl']['l'] not in R and any(p['l'] in R for p in dataflow.rvalue_places(s['rv'])):
+                    R.add(s['pl']['l'])
+                    changed = True
+            t = bb['t']
+            if t and t['k'] == 'call' and t['dest']['l'] not in R and any(a['k'] in ('copy', 'move') and a['pl']['l'] in R for a in t['args']):
+                R.add(t['dest']['l'])
+                changed = True
+    return bool(R & targets)
 
 
 def resolve_template(prog, body, op):
